@@ -122,3 +122,27 @@ Theorem C03_verdict_generated : forall b mk,
 Proof. exact gen_SetResult. Qed.
 Print Assumptions C03_verdict_generated.
 Print Assumptions C03_kernels_generated.
+
+From Sge Require Import Proofs.GenSettle Proofs.GenBetSettle.
+(* what a settled bet is paid and what is booked on the participations behind it ARE the Go functions of x/orderbook/keeper/bet_settle.go,
+   generated on every run as functions on (effect log, participations): a refunded bet gets its stake out of the pool and its fee out of the
+   fee collector; a won bet gets stake + payout profit of every part out of the pool, in the order of the parts, each taken off the profit of
+   the participation behind it; a lost bet pays nothing and adds each stake to that profit; a missing participation is an error in both *)
+Theorem C03_bet_settlement_generated :
+  (forall effs0 parts bettor amount fee x,
+     K_settle_RefundBettor (settle_state effs0 parts) bettor amount fee x =
+     Some (settle_state (effs0 ++ [Pay POOL bettor amount; Pay BETFEE bettor fee]) parts)) /\
+  (forall fs b effs0 bettor,
+     K_settle_BettorWins (settle_state effs0 (bk_parts b)) bettor (map gbf_of fs) =
+     match bettor_wins b bettor fs with
+     | None => None
+     | Some (b', effs) => Some (settle_state (effs0 ++ effs) (bk_parts b'))
+     end) /\
+  (forall fs b effs0,
+     K_settle_BettorLoses (settle_state effs0 (bk_parts b)) (map gbf_of fs) =
+     match bettor_loses b fs with
+     | None => None
+     | Some b' => Some (settle_state effs0 (bk_parts b'))
+     end).
+Proof. split; [exact gen_RefundBettor|split; [exact gen_BettorWins|exact gen_BettorLoses]]. Qed.
+Print Assumptions C03_bet_settlement_generated.
